@@ -102,6 +102,22 @@ def is_plain(obj):
     return True
 
 
+def is_plain_callable_object(obj):
+    """class or callable instance without a declared forger / __signature__ / __wrapped__:
+    its own parameter list is what inspect.signature reports for it"""
+    if isinstance(obj, (types.FunctionType, types.MethodType, types.BuiltinFunctionType, functools.partial)):
+        return False
+    if not (isinstance(obj, type) or hasattr(type(obj), '__call__')):
+        return False
+    for a in ('_sigtools__forger', '__signature__', '__wrapped__', '_sigtools__autoforwards_hint', '_sigtools__wrappers'):
+        try:
+            if hasattr(obj, a):
+                return False
+        except Exception:  # noqa: BLE001
+            return False
+    return True
+
+
 ADVERSARIAL = r'''
 import functools, contextlib, asyncio
 def callee(x, y=1, *, z=2): return None
@@ -263,6 +279,18 @@ class A_Callable:
     def __call__(self, *args, **kwargs):
         return callee(*args, **kwargs)
 a_callable = A_Callable()
+class A_InitCall:
+    def __init__(self, q):
+        self.q = q
+    def __call__(self, *args, **kwargs):
+        return callee(*args, **kwargs)
+a_initcall = A_InitCall(1)
+class A_MetaCall(type):
+    def __call__(cls, *args, **kwargs):
+        return callee(*args, **kwargs)
+class A_WithMeta(metaclass=A_MetaCall):
+    def __call__(self, a, *args, **kwargs):
+        return callee(*args, **kwargs)
 class A_Init:
     def __init__(self, *args, **kwargs):
         callee(*args, **kwargs)
@@ -309,6 +337,23 @@ def a_lru(*args, **kwargs):
 @contextlib.contextmanager
 def a_ctx(*args, **kwargs):
     yield callee(*args, **kwargs)
+class A_Model:
+    # a descriptor CLASS reached as a member of another class (documented as Model.Column):
+    # the class itself is the documented object, its __get__ is for its instances
+    class Column:
+        def __init__(self, column, *, nullable=False, default=None):
+            self.column = column
+        def __get__(self, instance, owner):
+            return self.column
+    class Field:
+        def __init__(self, column, *, nullable=False):
+            self.column = column
+        def __get__(self, instance, owner=None):
+            return instance.__dict__[self.column]
+        def __set__(self, instance, value):
+            instance.__dict__[self.column] = value
+    field_class = Field
+    col = Column('c')
 '''
 
 
@@ -424,7 +469,7 @@ def check_object(name, obj, rep, stats, narrow_reqs, narrow_meta):
         stats['refined'] += 1
         rep.distinct.add(name)
     # narrowing, for plain functions and methods
-    if is_plain(obj):
+    if is_plain(obj) or is_plain_callable_object(obj):
         own = base[1]
         try:
             d_got = describe_sig(got)
@@ -463,7 +508,8 @@ def sphinx_check(name, obj, rep, stats):
     s, ra = r[1]
     # the string forms of the evaluated signature
     exp = outcome(lambda: sigtools.signature(obj))
-    if exp[0] == 'ok' and name.count('.') == 1 and isinstance(obj, types.FunctionType):   # no rebinding by the hook
+    if exp[0] == 'ok' and ((name.count('.') == 1 and isinstance(obj, types.FunctionType))
+                           or (isinstance(obj, type) and '__get__' in vars(obj))):   # no rebinding by the hook
         try:
             ev = exp[1].evaluated()
         except Exception:  # noqa: BLE001
@@ -529,6 +575,29 @@ def run(ctx, rep):
                 vis_reqs.append(req)
                 vis_impl.append(D.impl_calls(tree[1], intern))
                 vis_names.append(name)
+    # the same retrievals from another thread (a worker thread never imported sigtools itself):
+    # same outcome as on this thread
+    import threading
+    sample = adv + corpus[:120 if ctx.quick else 1500]
+    main_out = [(name, outcome(sigtools.signature, obj)) for name, obj in sample if not fabricates(obj)]
+    box = []
+
+    def worker():
+        for name, obj in sample:
+            if not fabricates(obj):
+                box.append((name, outcome(sigtools.signature, obj)))
+    th = threading.Thread(target=worker)
+    th.start()
+    th.join()
+    canon_out = lambda r: (r[0], r[1] if r[0] == 'err' else str(r[1]))
+    for (name, a), (_, b) in zip(main_out, box):
+        stats['thread_retrievals'] += 1
+        if canon_out(a) != canon_out(b):
+            rep.violation('C07:thread', 'sigtools.signature(%s) gives %s on a worker thread, %s on the main thread'
+                          % (name, canon_out(b)[1], canon_out(a)[1]), {'kind': 'object', 'name': name, 'label': 'thread'})
+    if len(box) != len(main_out):
+        rep.violation('C07:thread', 'the worker thread stopped after %d of %d retrievals' % (len(box), len(main_out)),
+                      {'kind': 'object', 'name': 'thread', 'label': 'thread'})
     for name, obj in adv:
         if name.startswith('adversarial.'):
             sphinx_check('verif_adv.' + name.split('.', 1)[1], obj, rep, stats)
